@@ -52,6 +52,13 @@ D1(e, s) == (e.a = "validate2" /\ e.m \notin C03Excluded /\ s.v.k # "none" /\ s.
 (* ---- C15 ------------------------------------------------------------------------ *)
 S1(e)    == (e.a \in {"validate", "validate2"} /\ e.m \notin C15Excluded /\ IsStrRet(e.r))
               => IsAscii(e.r.v)
+(* observation, not part of C15 as stated: in the three formats that the property excepts because their own alphabet has   *)
+(* national letters, the non-ASCII characters of a result are those letters (umlauts and sharp s; N-tilde) and nothing else *)
+NationalLetters(m) == CASE m \in {"mx.rfc", "es.referenciacatastral"} -> {209, 241}
+                        [] m = "de.handelsregisternummer" -> {196, 214, 220, 228, 246, 252, 223}
+                        [] OTHER -> {}
+S1x(e)   == (e.a \in {"validate", "validate2"} /\ e.m \in {"de.handelsregisternummer", "mx.rfc", "es.referenciacatastral"} /\ IsStrRet(e.r))
+              => \A i \in 1..Len(e.r.v) : e.r.v[i] < 128 \/ e.r.v[i] \in NationalLetters(e.m)
 
 (* ---- machinery clauses: the driver really fed what the session prescribes -------- *)
 M1(e, s) == (e.a = "revalidate" /\ IsStrRet(s.v)) => e.x = s.v.v
